@@ -5,9 +5,10 @@ arguments head/tail pass to slice); Model/Frame.lean assembles them in a fixed s
 theorems about windows are re-checked against the arithmetic in the code.
 """
 import ast
+import re
 
-from ..extract import HEADER, Src
-from ..pyexpr import find_function, to_lean
+from ..extract import HEADER, Src, lean_str as json_str
+from ..pyexpr import Untranslatable, find_function, to_lean
 
 PINNED = {
     "slice.neg_test": "(offset < 0)",
@@ -19,7 +20,123 @@ PINNED = {
     "head.length": "size",
     "tail.offset": "(0 - size)",
     "tail.length": "size",
+    # round 2
+    "schema.iter": "(cols.map (fun col_v => col_v.1))",
+    "select.header": "(attributes.filter (fun attribute_v => decide ((attribute_v ∈ column_names))))",
+    "select.indices": "(new_header.filterMap (fun attribute_v => (pyIndex column_names attribute_v)))",
+    "select.project": "(attribute_indices.filterMap (fun indice_v => tup[indice_v]?))",
+    "collect.neg_test": "(limit < 0)",
+    "collect.all_value": "(-1)",
+    "collect.trunc_test": "((limit ≥ 0) ∧ (limit < num_rows))",
+    "batches.range": ["0", "n", "batch_size"],
+    "batches.window": ["i", "(i + batch_size)"],
+    "take.test": "(i ∈ indexes)",
 }
+
+# methods of DataFrame and whether they call self.materialize() before they first touch self._rows
+MATERIALISES = {"slice": True, "row": True, "__len__": True, "rowcount": True, "__iter__": True, "__add__": True,
+                "collect": True, "to_batches": True, "__hash__": True, "query": False, "distinct": False, "filter": False,
+                "take": False, "select": False}
+
+
+# ----------------------------------------------------------------------------- comprehensions -> Lean list terms
+
+
+def comp_to_lean(node, env, inline=None, attrs=None):
+    """List-valued Python expressions -> Lean `List` terms.
+
+    Supported: names/attributes through `env`; `iter(X)`, `list(X)`, `tuple(X)` (identity on listings);
+    `[E for x in L if C ...]` / generator expressions with one `for` over a plain name -> filter / map /
+    filterMap; `a in L`, `a not in L`; `L.index(a)` (partial: `pyIndex`), `t[i]` (partial: `t[i]?`);
+    `a + b` on lists -> `++`; `[a]`; `self.m()` / `self.p` inlined through `inline(name)` when the method is
+    a single `return` (or the `def _inner(): for x in L: yield from E` / `return list(_inner())` shape);
+    `x.attr` on a comprehension variable through `attrs` (templates with `$` for the variable).
+    """
+    attrs = attrs or {}
+
+    def partial(n):
+        return any(isinstance(x, ast.Subscript) or (isinstance(x, ast.Call) and isinstance(x.func, ast.Attribute) and x.func.attr == "index")
+                   for x in ast.walk(n))
+
+    def cond(n, env):
+        if isinstance(n, ast.Compare) and len(n.ops) == 1 and isinstance(n.ops[0], (ast.In, ast.NotIn)):
+            a, b = go(n.left, env), go(n.comparators[0], env)
+            return "(%s %s %s)" % (a, "∈" if isinstance(n.ops[0], ast.In) else "∉", b)
+        if isinstance(n, ast.BoolOp):
+            return "(" + (" ∧ " if isinstance(n.op, ast.And) else " ∨ ").join(cond(v, env) for v in n.values) + ")"
+        return to_lean(n, env)
+
+    def elem(n, env):
+        """Element expression; partial operations give an `Option`."""
+        if isinstance(n, ast.Call) and isinstance(n.func, ast.Attribute) and n.func.attr == "index" and len(n.args) == 1 and not n.keywords:
+            return "(pyIndex %s %s)" % (go(n.func.value, env), go(n.args[0], env))
+        if isinstance(n, ast.Subscript) and not isinstance(n.slice, ast.Slice):
+            return "%s[%s]?" % (go(n.value, env), go(n.slice, env))
+        raise Untranslatable("partial element %s" % ast.unparse(n))
+
+    def go(n, env):
+        key = ast.unparse(n)
+        if key in env:
+            return env[key]
+        if isinstance(n, ast.Call) and isinstance(n.func, ast.Name) and n.func.id in ("iter", "list", "tuple") and len(n.args) == 1 and not n.keywords:
+            return go(n.args[0], env)
+        if isinstance(n, (ast.ListComp, ast.GeneratorExp)):
+            if len(n.generators) != 1 or not isinstance(n.generators[0].target, ast.Name) or n.generators[0].is_async:
+                raise Untranslatable("comprehension shape")
+            g = n.generators[0]
+            x = g.target.id
+            src = go(g.iter, env)
+            env2 = dict(env)
+            for k in [k for k in env2 if re.search(r"\b%s\b" % re.escape(x), k)]:
+                del env2[k]
+            lx = x + "_v"  # never a Lean keyword (`attribute` is one)
+            env2[x] = lx
+            for a, tpl in attrs.items():
+                env2["%s.%s" % (x, a)] = tpl.replace("$", lx)
+            out = src
+            if g.ifs:
+                cs = [cond(c, env2) for c in g.ifs]
+                out = "(%s.filter (fun %s => decide (%s)))" % (out, lx, cs[0] if len(cs) == 1 else "(" + " ∧ ".join(cs) + ")")
+            if isinstance(n.elt, ast.Name) and n.elt.id == x:
+                return out
+            if partial(n.elt):
+                return "(%s.filterMap (fun %s => %s))" % (out, lx, elem(n.elt, env2))
+            return "(%s.map (fun %s => %s))" % (out, lx, go(n.elt, env2))
+        if isinstance(n, ast.BinOp) and isinstance(n.op, ast.Add):
+            return "(%s ++ %s)" % (go(n.left, env), go(n.right, env))
+        if isinstance(n, ast.List):
+            return "[" + ", ".join(go(e, env) for e in n.elts) + "]"
+        if inline is not None:
+            if isinstance(n, ast.Call) and isinstance(n.func, ast.Attribute) and ast.unparse(n.func.value) == "self" and not n.args and not n.keywords:
+                return inline(n.func.attr, go, env)
+            if isinstance(n, ast.Attribute) and ast.unparse(n.value) == "self":
+                return inline(n.attr, go, env)
+        raise Untranslatable("%s: %s" % (type(n).__name__, key))
+
+    return go(node, env)
+
+
+def body_wo_doc(fn):
+    b = list(fn.body)
+    if b and isinstance(b[0], ast.Expr) and isinstance(b[0].value, ast.Constant) and isinstance(b[0].value.value, str):
+        b = b[1:]
+    return b
+
+
+def calls_materialize_first(fn, who="self"):
+    """True: `<who>.materialize()` is a top-level statement before the first statement that mentions `<who>._rows`;
+    False: `<who>._rows` is used and `materialize` never called; anything else: KeyError (degrade)."""
+    for st in body_wo_doc(fn):
+        txt = ast.unparse(st)
+        if isinstance(st, ast.Expr) and txt == "%s.materialize()" % who:
+            return True
+        if "%s._rows" % who in txt or "%s.materialize" % who in txt:
+            if "%s.materialize" % who in txt:
+                raise KeyError("materialize() is not a plain first statement")
+            return False
+        if "%s.rowcount" % who in txt or "len(%s)" % who in txt:
+            raise KeyError("rows reached through another method first")
+    raise KeyError("method does not touch _rows")
 
 
 def generate(o):
@@ -98,7 +215,168 @@ def generate(o):
     v["slice.zero"] = o.item("frame.slice.zero_length_test", zero_test, PINNED["slice.zero_length_test"])
     h = o.item("frame.head.args", lambda: call_args("head"), [PINNED["head.offset"], PINNED["head.length"]])
     t = o.item("frame.tail.args", lambda: call_args("tail"), [PINNED["tail.offset"], PINNED["tail.length"]])
-    text = HEADER + "namespace Gen.Frame\n"
+    # ------------------------------------------------------------------ round 2: schema iteration, select, laziness, limits, batches
+    ssrc = Src("orso/schema.py")
+    col_attrs = {"name": "$.1", "aliases": "$.2", "all_names": "($.2 ++ [$.1])"}
+
+    def schema_inline(name, go, env_):
+        fn = find_function(ssrc.tree, name, "RelationSchema")
+        b = body_wo_doc(fn)
+        if len(b) == 1 and isinstance(b[0], ast.Return) and b[0].value is not None:
+            return go(b[0].value, env_)
+        if (len(b) == 2 and isinstance(b[0], ast.FunctionDef) and isinstance(b[1], ast.Return)
+                and ast.unparse(b[1].value) in ("list(%s())" % b[0].name, "%s()" % b[0].name)):
+            inner = body_wo_doc(b[0])
+            if len(inner) == 1 and isinstance(inner[0], ast.For) and isinstance(inner[0].target, ast.Name) and not inner[0].orelse \
+                    and len(inner[0].body) == 1 and isinstance(inner[0].body[0], ast.Expr):
+                y = inner[0].body[0].value
+                comp = lambda elt: ast.ListComp(elt=elt, generators=[ast.comprehension(target=inner[0].target, iter=inner[0].iter, ifs=[], is_async=0)])
+                if isinstance(y, ast.YieldFrom):
+                    return "(%s).flatten" % go(comp(y.value), env_)
+                if isinstance(y, ast.Yield) and y.value is not None:
+                    return go(comp(y.value), env_)
+        raise Untranslatable("RelationSchema.%s" % name)
+
+    def schema_iter():
+        fn = find_function(ssrc.tree, "__iter__", "RelationSchema")
+        b = body_wo_doc(fn)
+        if len(b) != 1 or not isinstance(b[0], ast.Return):
+            raise KeyError("RelationSchema.__iter__ is not a single return")
+        return comp_to_lean(b[0].value, {"self.columns": "cols"}, inline=schema_inline, attrs=col_attrs)
+
+    def select_fn():
+        return find_function(src.tree, "select", "DataFrame")
+
+    def select_assign(target):
+        for st in select_fn().body:
+            if isinstance(st, ast.Assign) and len(st.targets) == 1 and ast.unparse(st.targets[0]) == target:
+                return st.value
+        raise KeyError(target + " = ...")
+
+    def select_column_names():
+        v = ast.unparse(select_assign("column_names")).replace(" ", "")
+        if v != "list(self._schema)":
+            raise KeyError("column_names = list(self._schema)")
+        return True
+
+    def select_header():
+        return comp_to_lean(select_assign("new_header"), {"attributes": "attributes", "column_names": "column_names"})
+
+    def select_indices():
+        return comp_to_lean(select_assign("attribute_indices"), {"column_names": "column_names", "new_header": "new_header"})
+
+    def select_project():
+        inner = [st for st in select_fn().body if isinstance(st, ast.FunctionDef)]
+        if len(inner) != 1:
+            raise KeyError("inner projection generator")
+        b = body_wo_doc(inner[0])
+        if not (len(b) == 1 and isinstance(b[0], ast.For) and ast.unparse(b[0].iter) == "self._rows" and isinstance(b[0].target, ast.Name)
+                and len(b[0].body) == 1 and isinstance(b[0].body[0], ast.Expr) and isinstance(b[0].body[0].value, ast.Yield)):
+            raise KeyError("for tup in self._rows: yield ...")
+        tup = b[0].target.id
+        y = b[0].body[0].value.value
+        if isinstance(y, ast.Call) and isinstance(y.func, ast.Name) and y.func.id == "tuple" and len(y.args) == 1:
+            y = y.args[0]
+        ret = [st for st in select_fn().body if isinstance(st, ast.Return)][-1].value
+        kws = {k.arg: ast.unparse(k.value) for k in ret.keywords} if isinstance(ret, ast.Call) else {}
+        if kws.get("schema") != "new_header" or kws.get("rows") != inner[0].name + "()":
+            raise KeyError("DataFrame(rows=<inner>(), schema=new_header)")
+        return comp_to_lean(y, {tup: "tup", "attribute_indices": "attribute_indices"})
+
+    def mat(name, who="self"):
+        return lambda: calls_materialize_first(find_function(src.tree, name, "DataFrame"), who)
+
+    def iter_shape():
+        fn = find_function(src.tree, "__iter__", "DataFrame")
+        b = body_wo_doc(fn)
+        if [ast.unparse(x) for x in b] == ["self.materialize()", "return iter(self._rows)"]:
+            return True
+        if [ast.unparse(x) for x in b] == ["return iter(self._rows)"]:
+            return False
+        raise KeyError("__iter__ shape")
+
+    def collect_limit():
+        fn = find_function(src.tree, "collect", "DataFrame")
+        for st in fn.body:
+            if isinstance(st, ast.If) and not st.orelse and len(st.body) == 1 and isinstance(st.body[0], ast.Assign) \
+                    and ast.unparse(st.body[0].targets[0]) == "limit":
+                t = st.test
+                if isinstance(t, ast.BoolOp) and isinstance(t.op, ast.Or) and len(t.values) == 2 \
+                        and ast.unparse(t.values[0]) == "limit is None":
+                    return [to_lean(t.values[1], {"limit": "limit"}), to_lean(st.body[0].value, {})]
+        raise KeyError("if limit is None or <test>: limit = <all>")
+
+    def collect_trunc():
+        px = Src("orso/compute/compiled.pyx").text
+        i = px.index("collect_cython(")
+        m = re.search(r"\n[ \t]*if ([^\n:]*limit[^\n:]*):[ \t]*\n[ \t]*num_rows = limit[ \t]*\n", px[i:i + 4000])
+        if not m:
+            raise KeyError("if <limit test>: num_rows = limit")
+        return to_lean(m.group(1), {"limit": "limit", "num_rows": "num_rows"})
+
+    def batches_parts():
+        fn = find_function(src.tree, "to_batches", "DataFrame")
+        loops = [st for st in fn.body if isinstance(st, ast.For)]
+        if len(loops) != 1 or not isinstance(loops[0].target, ast.Name):
+            raise KeyError("for i in range(...)")
+        lp = loops[0]
+        i_ = lp.target.id
+        if not (isinstance(lp.iter, ast.Call) and ast.unparse(lp.iter.func) == "range" and len(lp.iter.args) == 3):
+            raise KeyError("range(start, stop, step)")
+        e = {"self.rowcount": "n", "len(self._rows)": "n", "len(self)": "n", "batch_size": "batch_size"}
+        rng = [to_lean(a, e) for a in lp.iter.args]
+        subs = [n for n in ast.walk(lp) if isinstance(n, ast.Subscript) and ast.unparse(n.value) == "self._rows" and isinstance(n.slice, ast.Slice)]
+        if len(subs) != 1 or subs[0].slice.step is not None or subs[0].slice.lower is None or subs[0].slice.upper is None:
+            raise KeyError("self._rows[lo:hi]")
+        if not (len(lp.body) == 1 and isinstance(lp.body[0], ast.Expr) and isinstance(lp.body[0].value, ast.Yield)):
+            raise KeyError("loop body is one yield")
+        e2 = dict(e)
+        e2[i_] = "i"
+        return [rng, [to_lean(subs[0].slice.lower, e2), to_lean(subs[0].slice.upper, e2)]]
+
+    def take_test():
+        fn = find_function(src.tree, "take", "DataFrame")
+        gens = [n for n in ast.walk(fn) if isinstance(n, ast.GeneratorExp)]
+        if len(gens) != 1 or len(gens[0].generators) != 1:
+            raise KeyError("one generator expression")
+        g = gens[0].generators[0]
+        if not (isinstance(g.target, ast.Tuple) and len(g.target.elts) == 2 and ast.unparse(g.iter) == "enumerate(self._rows)"
+                and ast.unparse(gens[0].elt) == ast.unparse(g.target.elts[1]) and len(g.ifs) == 1):
+            raise KeyError("(m for i, m in enumerate(self._rows) if <test>)")
+        c = g.ifs[0]
+        i_ = ast.unparse(g.target.elts[0])
+        if not (isinstance(c, ast.Compare) and len(c.ops) == 1 and isinstance(c.ops[0], ast.In) and ast.unparse(c.left) == i_
+                and ast.unparse(c.comparators[0]) == "indexes"):
+            raise KeyError("i in indexes")
+        return "(i ∈ indexes)"
+
+    v["schema.iter"] = o.item("frame.schema.iter", schema_iter, PINNED["schema.iter"])
+    o.item("frame.select.column_names_is_list_of_schema", select_column_names, True)
+    v["select.header"] = o.item("frame.select.header", select_header, PINNED["select.header"])
+    v["select.indices"] = o.item("frame.select.indices", select_indices, PINNED["select.indices"])
+    v["select.project"] = o.item("frame.select.project", select_project, PINNED["select.project"])
+    mats = {}
+    for name, pinned in MATERIALISES.items():
+        if name == "__iter__":
+            mats[name] = o.item("frame.materialises.__iter__", iter_shape, True)
+        else:
+            mats[name] = o.item("frame.materialises." + name, mat(name), pinned)
+    mats["__add__.other"] = o.item("frame.materialises.__add__.other", mat("__add__", "the_other"), True)
+    cl = o.item("frame.collect.limit", collect_limit, [PINNED["collect.neg_test"], PINNED["collect.all_value"]])
+    ct = o.item("frame.collect.trunc_test", collect_trunc, PINNED["collect.trunc_test"])
+    bp = o.item("frame.batches.parts", batches_parts, [PINNED["batches.range"], PINNED["batches.window"]])
+    tt = o.item("frame.take.test", take_test, PINNED["take.test"])
+    # is every definition the hand-written reference one? (then a model/mirror difference can only be a harness fault)
+    as_pinned = (v["slice.neg_test"] == PINNED["slice.neg_test"] and v["slice.neg_start"] == PINNED["slice.neg_start"]
+                 and v["slice.stop"] == PINNED["slice.stop"] and v["slice.zero"] == PINNED["slice.zero_length_test"]
+                 and h == [PINNED["head.offset"], PINNED["head.length"]] and t == [PINNED["tail.offset"], PINNED["tail.length"]]
+                 and v["schema.iter"] == PINNED["schema.iter"] and v["select.header"] == PINNED["select.header"]
+                 and v["select.indices"] == PINNED["select.indices"] and v["select.project"] == PINNED["select.project"]
+                 and all(mats[k] == MATERIALISES.get(k, True) for k in mats)
+                 and cl == [PINNED["collect.neg_test"], PINNED["collect.all_value"]] and ct == PINNED["collect.trunc_test"]
+                 and bp == [PINNED["batches.range"], PINNED["batches.window"]] and tt == PINNED["take.test"])
+    o.json["frame.source_as_pinned"] = bool(as_pinned)
+    text = HEADER + "set_option linter.unusedVariables false\nnamespace Gen.Frame\n"
     text += "/-- dataframe.py `slice`: the test under which the offset is counted from the end -/\n"
     text += "def sliceNegTest (offset : Int) : Prop := %s\n" % v["slice.neg_test"]
     text += "instance (offset : Int) : Decidable (sliceNegTest offset) := by unfold sliceNegTest; infer_instance\n"
@@ -115,5 +393,34 @@ def generate(o):
     text += "/-- `tail(size)` = `slice(tailOffset size, tailLength size)` -/\n"
     text += "def tailOffset (size : Int) : Int := %s\n" % t[0]
     text += "def tailLength (size : Int) : Int := %s\n" % t[1]
+    text += "/-- Python `list.index`: position of the first occurrence (fixed helper, not from the source) -/\n"
+    text += "def pyIndex (names : List String) (a : String) : Option Nat :=\n  match names with\n  | [] => none\n  | n :: ns => if n = a then some 0 else (pyIndex ns a).map (· + 1)\n"
+    text += "/-- schema.py `RelationSchema.__iter__` over columns given as (name, aliases) -/\n"
+    text += "def schemaIter (cols : List (String × List String)) : List String := %s\n" % v["schema.iter"]
+    text += "/-- dataframe.py `select`: `new_header`, `attribute_indices` and the projected row -/\n"
+    text += "def selectHeader (column_names attributes : List String) : List String := %s\n" % v["select.header"]
+    text += "def selectIndices (column_names new_header : List String) : List Nat := %s\n" % v["select.indices"]
+    text += "def selectProject {α : Type} (attribute_indices : List Nat) (tup : List α) : List α := %s\n" % v["select.project"]
+    text += "/-- does the method call `self.materialize()` before it first touches `self._rows`? -/\n"
+    text += "def materialisesFirst : String → Bool\n"
+    for name in sorted(mats):
+        text += "  | %s => %s\n" % (json_str(name), "true" if mats[name] else "false")
+    text += "  | _ => false\n"
+    text += "/-- `collect`: `if limit is None or <collectNegTest>: limit = <collectAllValue>` … -/\n"
+    text += "def collectNegTest (limit : Int) : Prop := %s\n" % cl[0]
+    text += "instance (limit : Int) : Decidable (collectNegTest limit) := by unfold collectNegTest; infer_instance\n"
+    text += "def collectAllValue : Int := %s\n" % cl[1]
+    text += "/-- … and compiled.pyx `collect_cython`: `if <collectTruncTest>: num_rows = limit` -/\n"
+    text += "def collectTruncTest (limit num_rows : Int) : Prop := %s\n" % ct
+    text += "instance (limit num_rows : Int) : Decidable (collectTruncTest limit num_rows) := by unfold collectTruncTest; infer_instance\n"
+    text += "/-- `to_batches`: `for i in range(start, stop, step): yield rows[lower : upper]` (`n = rowcount`) -/\n"
+    text += "def batchRangeStart (n batch_size : Int) : Int := %s\n" % bp[0][0]
+    text += "def batchRangeStop (n batch_size : Int) : Int := %s\n" % bp[0][1]
+    text += "def batchRangeStep (n batch_size : Int) : Int := %s\n" % bp[0][2]
+    text += "def batchLower (i batch_size : Int) : Int := %s\n" % bp[1][0]
+    text += "def batchUpper (i batch_size : Int) : Int := %s\n" % bp[1][1]
+    text += "/-- `take`: row `i` is kept iff … -/\n"
+    text += "def takeTest (i : Int) (indexes : List Int) : Prop := %s\n" % tt
+    text += "instance (i : Int) (indexes : List Int) : Decidable (takeTest i indexes) := by unfold takeTest; infer_instance\n"
     text += "end Gen.Frame\n"
     o.files["FrameExpr.lean"] = text
